@@ -129,8 +129,12 @@ def caller_roundtrip(r, pfx, form, avoid, delims):
                                                           "dseed": r.randrange(1 << 30)}, "hdr": None})
             ops.append({"k": "close", "h": h})
         else:
-            ops.append({"k": "create", "p": p, "form": fform, "delim": delim,
-                        "entry": pick(r, SF_CREATE if fform == "sfile" else RAW_CREATE), "tab": tab, "hdr": hdr})
+            op = {"k": "create", "p": p, "form": fform, "delim": delim,
+                  "entry": pick(r, SF_CREATE if fform == "sfile" else RAW_CREATE), "tab": tab, "hdr": hdr}
+            if fform == "sfile" and chance(r, 0.3):
+                # the header dict comes from an earlier file of this caller (or from the file about to be replaced)
+                op["hdr_from"] = pick(r, paths)
+            ops.append(op)
             if form == "txt" and chance(r, 0.2):
                 f = tab["fields"] if chance(r, 0.35) else other_order(tab["fields"])
                 ents = ["sfile.write.append", "io.write.append", "SFile.r+"] if fform == "sfile" else ["Recfile.r+", "recfile.write.r+"]
@@ -220,7 +224,10 @@ def caller_subsets(r, pfx, avoid):
         txt = chance(r, 0.5)
         delim = pick(r, DELIMS_C02) if txt else None
         fform = wpick(r, [("sfile", 4), ("raw", 1)])
-        tab = draw_table(r, "txt" if txt else "bin", delim, strsafe=True, small=not chance(r, 0.15))
+        # half of the tables carry the full string profile (leading/embedded/trailing blanks, delimiter characters):
+        # the column-skipping and row-skipping paths of the text reader are C02's own subject.  The model is
+        # esutil's full read of the same file, so a C04 matter cannot turn into a C02 alarm by itself.
+        tab = draw_table(r, "txt" if txt else "bin", delim, strsafe=chance(r, 0.5), small=not chance(r, 0.15))
         ops.append({"k": "create", "p": p, "form": fform, "delim": delim,
                     "entry": pick(r, SF_CREATE if fform == "sfile" else RAW_CREATE), "tab": tab,
                     "hdr": T.gen_header(r, simple=True) if fform == "sfile" else None})
@@ -403,8 +410,10 @@ def caller_own(r, pfx, avoid):
         form = "txt" if txt else "bin"
         fform = wpick(r, [("sfile", 3), ("raw", 1)])
         fields = T.draw_fields(r, form, simple=True, nmax=6, allow_mixed=False)
-        for f in fields:
-            f["o"] = pick(r, ["<", ">"]) if False else f["o"]
+        if txt and chance(r, 0.15):
+            # a table the text writer must reject (bool / complex columns have no text form): a rejected
+            # write has to leave the caller's memory alone just as an accepted one
+            fields = fields + [{"n": "unsup%d" % j, "t": pick(r, ["b1", "c8", "c16"]), "s": [], "o": fields[0]["o"], "p": "simple"}]
 
         def tab():
             return {"fields": fields, "nrows": draw_nrows(r, small=True), "dseed": r.randrange(1 << 30)}
@@ -432,6 +441,8 @@ def caller_own(r, pfx, avoid):
                 ents = ["sfile.write.append", "io.write.append", "SFile.r+"] if fform == "sfile" else ["Recfile.r+", "recfile.write.r+"]
                 ops.append({"k": "append", "p": p, "entry": pick(r, ents), "delim": delim, "tab": tab(), "present": pres(),
                             "wopts": wopts()})
+            elif chance(r, 0.25):
+                ops.append({"k": "write_ro", "p": p, "tab": tab(), "present": pres()})
             else:
                 h = "%sw%d_%d" % (pfx, j, len(ops))
                 ops.append({"k": "open_w", "h": h, "p": p, "kind": "SFile" if fform == "sfile" else "Recfile", "mode": "r+",
